@@ -8,6 +8,8 @@ names="$*"
 S=/tmp/iso-seeds
 rm -rf $S; mkdir -p $S
 rsync -a --exclude target /repo/ $S/repo/
+# (a seeded patch may be applied to /repo's working tree at this very moment: the copy starts from the committed state)
+git -C $S/repo checkout -q -- . 2>/dev/null
 rsync -a --exclude replays /verif/ $S/verif/
 [ -z "$names" ] && names=$(ls /verif/seeded | tr "\n" " ")
 unshare -m bash -c "
